@@ -8,7 +8,7 @@
 From Coq Require Import List String NArith ZArith Bool.
 From Verif Require Import Base.Text Gen.GenPanicSites Model.Lexer Model.Literals Model.Analyzer Model.Decode
   Proofs.LexerTile Proofs.PanicInventory Proofs.LitProofs Proofs.AnalyzerProofs Proofs.Utf.
-From Verif Require Model.StParser Model.StInstance Proofs.StExprProofs Proofs.StStmtProofs Proofs.StInstanceProofs.
+From Verif Require Model.StParser Model.DeclParser Model.StInstance Proofs.StExprProofs Proofs.StStmtProofs Proofs.StInstanceProofs Proofs.DeclProofs Proofs.DeclInstanceProofs.
 From Verif Require Import Gen.GenTokens.
 Import ListNotations.
 
@@ -47,3 +47,16 @@ Theorem C04_statement_parser_fuel : forall w00 fb w0 nm w1 (l : StStmtProofs.sl 
   (StStmtProofs.absorbs token l = true -> w2 = []) ->
   StInstance.parse_fb_tokens (w00 ++ fb :: w0 ++ nm :: w1 ++ StStmtProofs.flat_l token l ++ w2 ++ en :: w3) <> StInstance.OFuel.
 Proof. exact StInstanceProofs.parse_fb_fuel. Qed.
+
+(* ... and the same fuel is enough for the declaration blocks in front of the statements *)
+Theorem C04_declaration_parser_fuel : forall w00 fb w0 nm (bl : list (DeclProofs.swb token)) w1 (l : StStmtProofs.sl token) w2 en w3,
+  StExprProofs.all_triv token StInstance.tok_class w00 -> t_kind fb = KFunctionBlock ->
+  StExprProofs.all_triv token StInstance.tok_class w0 -> t_kind nm = KIdentifier ->
+  Forall (DeclProofs.wf_wb token StInstance.tok_class) bl ->
+  StExprProofs.all_triv token StInstance.tok_class w1 ->
+  StStmtProofs.wf_l token StInstance.tok_class StInstance.op_level true l ->
+  StExprProofs.all_triv token StInstance.tok_class w2 -> t_kind en = KEndFunctionBlock ->
+  StExprProofs.all_triv token StInstance.tok_class w3 ->
+  (StStmtProofs.absorbs token l = true -> w2 = []) ->
+  StInstance.parse_fbd_tokens (w00 ++ fb :: w0 ++ nm :: DeclProofs.flat_wbs token bl ++ w1 ++ StStmtProofs.flat_l token l ++ w2 ++ en :: w3) <> StInstance.O2Fuel.
+Proof. exact DeclInstanceProofs.parse_fbd_fuel. Qed.
